@@ -64,8 +64,8 @@ func NewSolver(timeoutMs int) *Solver {
 	s := &Solver{TimeoutMs: timeoutMs, Incremental: os.Getenv("SYMX_NO_INC") == ""}
 	s.Stats.BySolver = map[string]int{}
 	s.procs = []*proc{
-		{name: "z3-4.8.12", argv: []string{"z3", "-in"}},
 		{name: "z3-5.1.0", argv: []string{"z3-new", "-in"}},
+		{name: "z3-4.8.12", argv: []string{"z3", "-in"}},
 		{name: "cvc5-1.0.3", argv: []string{"cvc5", "--incremental", "--produce-models", "--lang=smt2"}},
 	}
 	if o := os.Getenv("SYMX_SOLVER_ORDER"); o != "" {
